@@ -309,3 +309,76 @@ theorem resolveConstants_errors_order_independent (fl : Flags) (o₁ o₂ : Orde
       · simp only [Except.error.injEq] at h₁ h₂
         rw [← h₁, ← h₂, a1, b1]
         exact hperm.flatMap_right _
+
+/-- **what acceptance demands of every constant**: in the accepted table, every definition passes the width checker and
+    evaluates (after the width fix-up) to the value the table holds for it -/
+theorem resolveConstants_rules (fl : Flags) (o : Orders) (exprs : AMap Ex) (ho : OrdersOK o)
+    (hk : exprs.keys.Nodup) (hrefs : ∀ p ∈ exprs, ∀ r ∈ refs p.2, exprs.contains r = true)
+    (c : AMap WireValue) (h : resolveConstants fl o exprs = .ok c) :
+    ∀ n e, exprs.get? n = some e → ∃ v, c.get? n = some v ∧ constVal fl c e = .ok v := by
+  obtain ⟨gwf, gkeys, gupper⟩ := constGraphFrom_spec exprs {} GBuild.wf_empty hk (by intro p _ e he; simp at he)
+  have gedges := constGraphFrom_edges exprs {} GBuild.wf_empty hk (by intro p _ e he; simp at he)
+  rw [← constGraph_eq] at gwf gkeys gupper gedges
+  have hnodes : ∀ n ∈ (constGraph exprs).nodes, (exprs.get? n).isSome = true := by
+    intro n hn
+    rw [AMap.get?_isSome_iff_contains]
+    rcases gupper n hn with h | ⟨p, hp, h | h⟩
+    · simp at h
+    · rw [h]; exact (AMap.contains_iff_mem_keys _ _).mpr (List.mem_map.mpr ⟨p, hp, rfl⟩)
+    · exact hrefs p hp n h
+  unfold resolveConstants at h
+  rcases (constGraph exprs).sort_spec o gwf ho with ⟨order, hso, hnd, hcover, htopo⟩ | ⟨cy, hsc, _⟩
+  · rw [hso] at h
+    simp only at h
+    have hdeps : DepsDone exprs order [] := by
+      intro pre n post hsplit e he x hx
+      right
+      exact htopo pre n post hsplit x (gedges (x, n) (Or.inr ⟨(n, e), AMap.mem_of_get? _ _ _ he, rfl, hx⟩))
+    obtain ⟨a1, a2, _⟩ := resolveLoop_char fl exprs order [] [] [] (fun n hn => hnodes n ((hcover n).mp hn)) hnd
+      (by intro n _ hh; cases hh) (by intro k hk'; simp [AMap.contains] at hk') hdeps
+    have habs : ∀ k, k ∉ order → (resolveLoop fl exprs order [] []).1.get? k = none :=
+      fun k hk' => resolveLoop_absent fl exprs order [] [] k (by simp [AMap.contains]) hk'
+    generalize (resolveLoop fl exprs order [] []).1 = R at a1 a2 h habs
+    generalize (resolveLoop fl exprs order [] []).2 = errs at a1 h
+    split at h
+    · rename_i herr
+      have herrs : errs = [] := by simpa using herr
+      simp only [Except.ok.injEq] at h
+      -- the canonical table has the same content
+      have hsame : ∀ k, c.get? k = R.get? k := by
+        intro k
+        rw [← h, canonConsts_get?]
+        split
+        · rfl
+        · rename_i hc
+          symm
+          apply habs
+          intro hko
+          have := hnodes k ((hcover k).mp hko)
+          rw [AMap.get?_isSome_iff_contains] at this
+          exact hc this
+      have henv : c.toEnv = R.toEnv := funext hsame
+      intro n e hne
+      have hn : n ∈ order := (hcover n).mpr (gkeys (n, e) (AMap.mem_of_get? _ _ _ hne))
+      have hnone : constErrs fl exprs R n = [] := by
+        rw [herrs, List.nil_append] at a1
+        have := List.flatMap_eq_nil_iff.mp a1.symm n hn
+        exact this
+      have hentry := a2 n hn
+      unfold constErrs at hnone
+      unfold constEntry at hentry
+      rw [hne] at hnone hentry
+      simp only at hnone hentry
+      cases hc : constVal fl R e with
+      | error ds =>
+        rw [hc] at hnone
+        simp only at hnone
+        unfold constVal wOf at hc
+        exact absurd hnone (checkFixEval_err fl _ _ _ _ hc)
+      | ok v =>
+        rw [hc] at hentry
+        refine ⟨v, by rw [hsame]; exact hentry, ?_⟩
+        rw [← hc]
+        exact constVal_congr fl c R e (fun x _ => by rw [henv])
+    · cases h
+  · rw [hsc] at h; cases h
